@@ -376,6 +376,47 @@ def rule_r1(ctx):
                     if g.dominates(j, n) and dotted(subj) in (jv, inp):
                         searches.append((n, c, dotted(subj)))
         bad = [(n, c) for (n, c, subj) in searches if subj != jv]
+        # a search may skip a prefix of the joined buffer only if at most len(carry) - (len(terminator) - 1) bytes
+        for (n, c, subj) in searches:
+            if subj != jv:
+                continue
+            extra = []
+            tlen = None
+            if isinstance(c.func, ast.Attribute):
+                extra = list(c.args[1:]) + [k.value for k in c.keywords]
+                if c.args and isinstance(c.args[0], ast.Constant) and isinstance(c.args[0].value, bytes):
+                    tlen = len(c.args[0].value)
+            else:
+                extra = list(c.args[1:]) + [k.value for k in c.keywords]
+                callee = p.functions.get("utilities.find_double_newline")
+                if callee is not None:
+                    consts = [x.value for x in ast.walk(callee.node) if isinstance(x, ast.Constant) and isinstance(x.value, bytes)]
+                    tlen = max((len(x) for x in consts), default=None)
+            if not extra:
+                continue
+            start = extra[0]
+            if isinstance(start, ast.Call) and dotted(start.func) == "max" and len(start.args) == 2:
+                zero = [a for a in start.args if isinstance(a, ast.Constant) and a.value == 0]
+                other = [a for a in start.args if a not in zero]
+                if zero and other:
+                    start = other[0]
+            try:
+                val = Expander(f).value(start, n)
+            except AnalysisError as e:
+                ctx.r.error(rid, "%s: cannot evaluate the search offset %s: %s" % (carry, norm(extra[0]), e))
+                continue
+            H = Lin.sym("len(%s)" % carry)
+            diff = val - H
+            if diff.t or tlen is None:
+                ctx.r.error(rid, "%s: search offset %s is not of the form len(carry) - k" % (carry, val))
+                continue
+            k = -diff.c
+            if k >= tlen - 1:
+                ctx.r.ok(rid, "%s: the search skips len(carry) - %d bytes, the %d-byte terminator cannot hide there" % (carry, k, tlen), f.loc(n.ast))
+            else:
+                ctx.r.violation(rid, key_of(f, None, "search-skips-carry::" + carry),
+                                "%s: the search starts at len(carry) - %d but the terminator is %d bytes long: a terminator whose last %d byte(s) arrive in a later read is never found"
+                                % (carry, k, tlen, tlen - 1 - k if k >= 0 else tlen - 1), f.loc(n.ast))
         if searches and not bad:
             ctx.r.ok(rid, "%s: joined with the data before %d search(es)" % (carry, len(searches)), f.loc(j.ast))
         elif bad:
@@ -536,6 +577,8 @@ selftest = [
     M("fixed-returns-all", "receiver.py", "            self.completed = True\n\n            return rm\n", "            self.completed = True\n\n            return datalen\n", "R2b"),
     M("trailer-not-stored", "receiver.py", "                    # Trailer not finished.\n                    self.trailer = trailer\n                    s = b\"\"", "                    # Trailer not finished.\n                    s = b\"\"", "R2b"),
     M("chunk-remainder-by-request", "receiver.py", "                self.chunk_remainder -= written\n", "                self.chunk_remainder -= rm\n", "R2b"),
+    V("search-skips-carry", "mutant", [("utilities.py", "def find_double_newline(s):\n    \"\"\"Returns the position just after a double newline in the given string.\"\"\"\n    pos = s.find(b\"\\r\\n\\r\\n\")", "def find_double_newline(s, start=0):\n    \"\"\"Returns the position just after a double newline in the given string.\"\"\"\n    pos = s.find(b\"\\r\\n\\r\\n\", start)"), ("parser.py", "            index = find_double_newline(s)\n", "            index = find_double_newline(s, max(len(self.header_plus) - 2, 0))\n")], "R1"),
+    V("search-skips-safely", "twin", [("utilities.py", "def find_double_newline(s):\n    \"\"\"Returns the position just after a double newline in the given string.\"\"\"\n    pos = s.find(b\"\\r\\n\\r\\n\")", "def find_double_newline(s, start=0):\n    \"\"\"Returns the position just after a double newline in the given string.\"\"\"\n    pos = s.find(b\"\\r\\n\\r\\n\", start)"), ("parser.py", "            index = find_double_newline(s)\n", "            index = find_double_newline(s, max(len(self.header_plus) - 3, 0))\n")]),
     T("local-for-len", "parser.py", "                consumed = datalen - (len(s) - index)", "                slen = len(s)\n                consumed = datalen - (slen - index)"),
     T("direct-form", "parser.py", "                consumed = datalen - (len(s) - index)", "                consumed = index - len(self.header_plus)"),
     T("swap-finished-assignments", "receiver.py", "                    s = s[pos + 2 :]\n                    self.control_line = b\"\"\n", "                    self.control_line = b\"\"\n                    s = s[pos + 2 :]\n"),
